@@ -193,7 +193,14 @@ def r3_bounds(repo):
         existing = [t for t in texts if t.endswith(".bound") or "get_bound_rec(" in t or "get_type_variables(" in t
                     or ".bound," in t]
         none = isinstance(n.value, ast.Constant) and n.value.value is None
-        ok = not fresh and (bool(existing) or none)
+        # ... or the store only happens when the same type parameter already has a bound (`if t.bound in m:`,
+        # `if t.bound:`): replacing one bound by another adds no bounded type parameter
+        tgt_obj = src(n.targets[0].value)
+        rebinding = any(pol and any(isinstance(x, ast.Attribute) and x.attr == "bound" and src(x.value) == tgt_obj
+                                    for x in ast.walk(t))
+                        and not (isinstance(t, ast.Compare) and any(isinstance(o, (ast.Is, ast.Eq)) for o in t.ops))
+                        for t, pol in flat_guards(n))
+        ok = not fresh and (bool(existing) or none or rebinding)
         obs.append(Ob("C17-R3", "bound-store@%s:%s" % (f.qualname, " ".join(src(n).split())[:60]), _w(f, n), ok,
                       "a store to .bound must copy / substitute a bound that already exists (or clear it) - also the top type "
                       "is a bound: derives from %s"
